@@ -155,10 +155,35 @@ def coq_props(pid, timeout=900):
 FORBIDDEN = re.compile(r"\b(Admitted|admit|Axiom|Axioms|Parameter|Parameters|Conjecture|Admit Obligations|Unset Guard Checking|Unset Positivity Checking|Unset Universe Checking|bypass_check|type-in-type|impredicative-set)\b")
 
 
-def coq_hygiene():
-    """No Admitted/admit/Axiom/Parameter/... anywhere in the development. Returns list of hits."""
+def coq_closure(roots):
+    """Transitive closure of `Require`d Charon files starting from the given .v paths (relative to coq/)."""
+    seen, todo = [], list(roots)
+    while todo:
+        rel = todo.pop()
+        if rel in seen or not os.path.exists(os.path.join(COQ, rel)):
+            continue
+        seen.append(rel)
+        txt = open(os.path.join(COQ, rel)).read()
+        txt = re.sub(r"\(\*.*?\*\)", "", txt, flags=re.S)
+        for m in re.finditer(r"(From\s+(\S+)\s+)?Require\s+(?:Import\s+|Export\s+)?(.*?)\.(?=\s|$)", txt, flags=re.S):
+            if m.group(2) and m.group(2) != "Charon":
+                continue
+            for mod in m.group(3).split():
+                mod = mod.strip()
+                if mod.startswith("Charon."):
+                    mod = mod[len("Charon."):]
+                cand = mod.replace(".", "/") + ".v"
+                if os.path.exists(os.path.join(COQ, cand)):
+                    todo.append(cand)
+    return seen
+
+
+def coq_hygiene(roots=None):
+    """No Admitted/admit/Axiom/Parameter/... in the files the property depends on (all files when
+    roots is None). Returns list of hits."""
     hits = []
-    for rel in coq_sources() + [os.path.relpath(p, COQ) for p in glob.glob(os.path.join(COQ, "gen", "cases_*.v"))]:
+    files = coq_closure(roots) if roots else coq_sources()
+    for rel in files:
         try:
             txt = open(os.path.join(COQ, rel)).read()
         except OSError:
@@ -289,7 +314,7 @@ class Result:
     def proofs(self, pid=None, extra_targets=None):
         """Build the theory of the property and record obligations/discharged."""
         pid = pid or self.pid
-        hy = coq_hygiene()
+        hy = coq_hygiene(["Properties/%s.v" % pid] + (extra_targets or []))
         if hy:
             self.broken.append({"name": "hygiene", "detail": "forbidden vernacular: " + "; ".join(hy[:10])})
         targets = ["Properties/%s.v" % pid] + (extra_targets or [])
